@@ -1,5 +1,6 @@
 import Replicon.Proofs.Client
 import Replicon.Proofs.Fresh
+import Replicon.Proofs.Session
 /-
 C09 — Disconnects, reconnects and server restarts start from a clean slate.
 
@@ -68,5 +69,43 @@ theorem C09_new_session_round_trip (s : Server) (thisRun : Nat) (c : Client) (us
 theorem C09_server_state_is_fresh (s : Server) (c : Nat) :
     aget (s.connect c true).clients c = some Fresh.freshCli :=
   aget_aset_same _ _ _
+
+/-- **Every session starts from a clean slate — entities, over ALL histories, across both models**
+(`Proofs/Session.lean`).  The ghost log of `Joint.runLog` is emptied when a client connects, so it
+holds the update messages of the client's *current* session only; the receiver is the client
+model started *fresh* (what `C09_client_reset` shows the client to be after a disconnect).
+After any history — with any number of disconnects, reconnects, server stops and restarts,
+whatever was tracked, buffered or hidden for the client in earlier sessions; entity identifiers
+not reused, a stopped server sees a frame before a restart, no pre-spawn mappings — that ends
+with a frame in which `send_replication` ran: the fresh receiver fed the current session's
+update messages in order holds exactly the replicated entities visible to the client, and none
+of those messages failed on it.  Nothing of an earlier session is needed for, or leaks into,
+that set. -/
+theorem C09_history_session_clean (s0 : Server) (hw : s0.world = []) (hc0 : s0.clients = []) (hb : s0.removalBuf = [])
+    (ops : List Joint.Op) (ticked : Bool) (ms : Nat) (parts : Nat → List (List Nat))
+    (hl : Joint.Legal2 { srv := s0 } (ops ++ [.frame ticked ms parts]))
+    (hr : (Joint.run { srv := s0 } ops).1.srv.running = true)
+    (hc : (preRun (Joint.run { srv := s0 } ops).1.srv ticked ms).tickChanged = true) :
+    ∀ x ∈ (Joint.run { srv := s0 } (ops ++ [.frame ticked ms parts])).1.srv.clients, x.2.authorized = true →
+      WF (Joint.replay ((Joint.runLog { srv := s0 } (fun _ => []) (ops ++ [.frame ticked ms parts])).2 x.1)) ∧
+      ∀ se, held (Joint.replay ((Joint.runLog { srv := s0 } (fun _ => []) (ops ++ [.frame ticked ms parts])).2 x.1)) se ↔
+        marked (Joint.run { srv := s0 } (ops ++ [.frame ticked ms parts])).1.srv.world se ∧
+        Vis.isVisible (Joint.run { srv := s0 } (ops ++ [.frame ticked ms parts])).1.srv.white (cell x.2 se) = true :=
+  Joint.session_view s0 hw hc0 hb ops ticked ms parts hl hr hc
+
+/-- Non-vacuity: a history with a disconnect / reconnect of client 0, and a server stop, frame,
+restart; the hypotheses hold, and the log of client 0 holds one message (of the last session). -/
+example :
+    let s0 : Server := { rates := [(0, .every)] }
+    let ops : List Joint.Op :=
+      [.start, .connect 0 true, .spawn 5 true [(0, 7)], .frame true 10 (fun _ => []), .spawn 6 true [],
+       .frame true 10 (fun _ => []), .disconnect 0, .connect 0 true, .frame true 10 (fun _ => []),
+       .stop, .frame false 10 (fun _ => []), .start, .connect 0 true, .despawn 5]
+    Joint.Legal2 { srv := s0 } (ops ++ [.frame true 10 (fun _ => [])]) ∧
+    (Joint.run { srv := s0 } ops).1.srv.running = true ∧
+    (preRun (Joint.run { srv := s0 } ops).1.srv true 10).tickChanged = true ∧
+    ((Joint.runLog { srv := s0 } (fun _ => []) (ops ++ [.frame true 10 (fun _ => [])])).2 0).length = 1 ∧
+    ((Joint.replay ((Joint.runLog { srv := s0 } (fun _ => []) (ops ++ [.frame true 10 (fun _ => [])])).2 0)).s2c.map (·.1)) = [6] := by
+  refine ⟨by decide, by decide, by decide, by decide, by decide⟩
 
 end Replicon.C09
